@@ -207,3 +207,25 @@ fn c14_transmit_after_completed() {
     assert!(m.state.cycle_state == CycleState::DataExchange(0));
     assert!(m.take_last_events() == DpEvents::default());
 }
+
+/// C14.api-frame: entering the Operate state (legal at any time, also while a cycle is under way or a request is
+/// outstanding) asks for a new Global_Control and changes nothing else: the cycle position - the only record of which
+/// peripheral the outstanding request went to and who already had its turn - and the collected events stay as they are
+#[kani::proof]
+#[kani::unwind(6)]
+fn c14_enter_operate_frame() {
+    let occ: [bool; SLOTS] = kani::any();
+    let mut m = any_master(occ);
+    let c: u8 = kani::any();
+    kani::assume((c as usize) < SLOTS);
+    let cs = if kani::any() { CycleState::DataExchange(c) } else { CycleState::CycleCompleted };
+    m.state.cycle_state = cs;
+    m.state.operating_state = match kani::any::<u8>() % 3 { 0 => OperatingState::Stop, 1 => OperatingState::Clear, _ => OperatingState::Operate };
+    m.state.last_global_control = if kani::any() { Some(vk_any_instant()) } else { None };
+    let cc: bool = kani::any();
+    m.state.last_events = DpEvents { cycle_completed: cc, ..Default::default() };
+    m.enter_operate();
+    assert!(m.state.cycle_state == cs);
+    assert!(m.state.operating_state == OperatingState::Operate && m.state.last_global_control.is_none());
+    assert!(m.state.last_events == DpEvents { cycle_completed: cc, ..Default::default() });
+}
